@@ -2078,93 +2078,102 @@ func c14MoreCount(c *Ctx, r *Report, rule string) {
 	n := 0
 	for _, fi := range c.AllFuncDecls("rare/pkg/multiterm/termrenderers") {
 		info := fi.Pkg.TypesInfo
-		ast.Inspect(fi.Decl.Body, func(x ast.Node) bool {
-			is, ok := x.(*ast.IfStmt)
-			if !ok {
+		isLen := func(e ast.Expr) bool {
+			ce, ok := ast.Unparen(e).(*ast.CallExpr)
+			return ok && calleeName(info, ce) == "builtin.len" && len(ce.Args) == 1
+		}
+		var fg *FGraph
+		ast.Inspect(fi.Decl.Body, func(y ast.Node) bool {
+			ce, ok := y.(*ast.CallExpr)
+			if !ok || len(ce.Args) < 2 {
 				return true
 			}
-			be, ok := ast.Unparen(is.Cond).(*ast.BinaryExpr)
-			if !ok {
+			isNote := false
+			for _, a := range ce.Args {
+				if sv, isS := constString(info, a); isS && strings.Contains(sv, "more)") {
+					isNote = true
+				}
+			}
+			if !isNote {
 				return true
 			}
-			var all, shown ast.Expr
-			isLen := func(e ast.Expr) bool {
-				ce, ok := ast.Unparen(e).(*ast.CallExpr)
-				return ok && calleeName(info, ce) == "builtin.len" && len(ce.Args) == 1
-			}
-			switch {
-			case be.Op == token.GTR && isLen(be.X):
-				all, shown = be.X, be.Y
-			case be.Op == token.LSS && isLen(be.Y):
-				all, shown = be.Y, be.X
-			default:
-				return true
-			}
-			// a "(%d more)" text written directly in the guarded block
-			for _, st := range is.Body.List {
-				ast.Inspect(st, func(y ast.Node) bool {
-					ce, ok := y.(*ast.CallExpr)
-					if !ok || len(ce.Args) < 2 {
-						return true
+			for _, a := range ce.Args {
+				sub, isSub := ast.Unparen(a).(*ast.BinaryExpr)
+				if !isSub || sub.Op != token.SUB || !isLen(sub.X) {
+					continue
+				}
+				all := sub.X
+				n++
+				if fg == nil {
+					fg = NewFGraph(fi.Decl.Body, info)
+					fg.SolveFacts(analyseVars(info, fi.Decl))
+				}
+				// the guard: a fact len(all) > shown known at the note (if / guard clause / switch alike)
+				var shown ast.Expr
+				guardText := ""
+				for _, f := range fg.FactsAtPos(ce.Pos()) {
+					if f.Tag != nil {
+						continue
 					}
-					isNote := false
-					for _, a := range ce.Args {
-						if sv, isS := constString(info, a); isS && strings.Contains(sv, "more)") {
-							isNote = true
-						}
+					be, isB := ast.Unparen(f.Cond).(*ast.BinaryExpr)
+					if !isB {
+						continue
 					}
-					if !isNote {
-						return true
+					op := be.Op
+					if !f.Truth {
+						op = negateTok(op)
 					}
-					for _, a := range ce.Args {
-						sub, isSub := ast.Unparen(a).(*ast.BinaryExpr)
-						if !isSub || sub.Op != token.SUB || exprStr(sub.X) != exprStr(all) {
-							continue
-						}
-						n++
-						okNote := exprStr(ast.Unparen(sub.Y)) == exprStr(ast.Unparen(shown))
-						why := "the note subtracts the guard's own count"
-						if !okNote {
-							// shown := min(len(all), limit), bound exactly once, and the note subtracts limit
-							if so := identObj(info, shown); so != nil {
-								defs := 0
-								var def ast.Expr
-								ast.Inspect(fi.Decl.Body, func(z ast.Node) bool {
-									switch t := z.(type) {
-									case *ast.AssignStmt:
-										for i, l := range t.Lhs {
-											if identObj(info, l) == so {
-												defs++
-												if len(t.Rhs) == len(t.Lhs) {
-													def = t.Rhs[i]
-												}
-											}
-										}
-									case *ast.IncDecStmt:
-										if identObj(info, t.X) == so {
-											defs += 2
+					switch {
+					case op == token.GTR && exprStr(be.X) == exprStr(all):
+						shown, guardText = be.Y, exprStr(be)
+					case op == token.LSS && exprStr(be.Y) == exprStr(all):
+						shown, guardText = be.X, exprStr(be)
+					}
+				}
+				if shown == nil {
+					r.Bad(rule, fi.Name, exprStr(sub), c.Pos(sub.Pos()), "the \"(n more)\" note "+exprStr(sub)+" is written where it is not known that fewer than "+exprStr(all)+" are shown: the note can appear with zero or a negative count")
+					continue
+				}
+				okNote := exprStr(ast.Unparen(sub.Y)) == exprStr(ast.Unparen(shown))
+				why := "the note subtracts the guard's own count"
+				if !okNote {
+					// shown := min(len(all), limit), bound exactly once, and the note subtracts limit
+					if so := identObj(info, shown); so != nil {
+						defs := 0
+						var def ast.Expr
+						ast.Inspect(fi.Decl.Body, func(z ast.Node) bool {
+							switch t := z.(type) {
+							case *ast.AssignStmt:
+								for i, l := range t.Lhs {
+									if identObj(info, l) == so {
+										defs++
+										if len(t.Rhs) == len(t.Lhs) {
+											def = t.Rhs[i]
 										}
 									}
-									return true
-								})
-								if mc, isCall := ast.Unparen(def).(*ast.CallExpr); defs == 1 && isCall && len(mc.Args) == 2 {
-									nm := calleeName(info, mc)
-									if nm == "builtin.min" || strings.HasSuffix(nm, ".mini") || strings.HasSuffix(nm, ".min") {
-										for k := 0; k < 2; k++ {
-											if exprStr(ast.Unparen(mc.Args[k])) == exprStr(all) && exprStr(ast.Unparen(mc.Args[1-k])) == exprStr(ast.Unparen(sub.Y)) {
-												okNote = true
-												why = "the displayed count is min(len, limit), bound once: under the guard it equals the limit the note subtracts"
-											}
-										}
+								}
+							case *ast.IncDecStmt:
+								if identObj(info, t.X) == so {
+									defs += 2
+								}
+							}
+							return true
+						})
+						if mc, isCall := ast.Unparen(def).(*ast.CallExpr); defs == 1 && isCall && len(mc.Args) == 2 {
+							nm := calleeName(info, mc)
+							if nm == "builtin.min" || strings.HasSuffix(nm, ".mini") || strings.HasSuffix(nm, ".min") {
+								for k := 0; k < 2; k++ {
+									if exprStr(ast.Unparen(mc.Args[k])) == exprStr(all) && exprStr(ast.Unparen(mc.Args[1-k])) == exprStr(ast.Unparen(sub.Y)) {
+										okNote = true
+										why = "the displayed count is min(len, limit), bound once: under the guard it equals the limit the note subtracts"
 									}
 								}
 							}
 						}
-						r.Check(okNote, rule, fi.Name, exprStr(sub), c.Pos(sub.Pos()), "agreement: "+why,
-							"the \"(n more)\" note is computed as "+exprStr(sub)+" under the guard "+exprStr(is.Cond)+", but "+exprStr(sub.Y)+" is not (provably) the number shown there: when the displayed count is limited a second time (to the terminal width, say) the note reports too few, zero or a negative number of hidden rows / columns")
 					}
-					return true
-				})
+				}
+				r.Check(okNote, rule, fi.Name, exprStr(sub), c.Pos(sub.Pos()), "agreement: "+why,
+					"the \"(n more)\" note is computed as "+exprStr(sub)+" under the guard "+guardText+", but "+exprStr(sub.Y)+" is not (provably) the number shown there: when the displayed count is limited a second time (to the terminal width, say) the note reports too few, zero or a negative number of hidden rows / columns")
 			}
 			return true
 		})
